@@ -8,6 +8,8 @@ import (
 	"fmt"
 	"sync"
 
+	"github.com/efficientgo/core/errors"
+
 	"github.com/thanos-community/promql-engine/execution/model"
 
 	"github.com/prometheus/prometheus/model/labels"
@@ -70,6 +72,13 @@ func (c *concurrencyOperator) Next(ctx context.Context) ([]model.StepVector, err
 
 func (c *concurrencyOperator) pull(ctx context.Context) {
 	defer close(c.buffer)
+	// A panic below (e.g. in a storage callback) must not take down the process:
+	// it is handed to the consumer as the query's error.
+	defer func() {
+		if e := recover(); e != nil {
+			c.buffer <- maybeStepVector{err: panicToError(e)}
+		}
+	}()
 
 	for {
 		select {
@@ -94,4 +103,12 @@ func (c *concurrencyOperator) drainBufferOnCancel(ctx context.Context) {
 	<-ctx.Done()
 	for range c.buffer {
 	}
+}
+
+// panicToError turns a recovered panic value into an error.
+func panicToError(e interface{}) error {
+	if err, ok := e.(error); ok {
+		return errors.Wrap(err, "unexpected error")
+	}
+	return errors.Newf("unexpected error: %v", e)
 }
